@@ -227,6 +227,10 @@ def run(ctx):
             do_case(ctx, case)
         else:
             a, o, t = gen_valid(rng, ctx.quick, prefix_p=0.15, empty_p=0.04)
+            if rng.random() < 0.15:
+                # the model is the OUTPUT of another operation (assume / reduce / negate / Not / Imply / a JSON, base64, pickle or
+                # deepcopy round trip, one or two of them) applied to a generated valid model
+                a, o, t = gen_derived(rng, ctx.quick); ctx.tags["derived-model-stream"] += 1
             if rng.random() < 0.3:
                 # negations pushed inwards over several anonymous compounds (Not / Imply / XNor nests): the children of
                 # such nodes are held in the order of their ids BEFORE the negation
